@@ -33,7 +33,7 @@ ASSUMPTIONS = [
     "an InvalidStateError out of Gateway.connection_lost when the waiter was already completed in the same iteration belongs to C10.report, not C11",
 ]
 PROBES = ["completed_by_software_rstack", "nonsoftware_rstack_during_reset", "error_during_reset", "timeout_exact", "tie_at_deadline",
-          "rstack_before_request", "rstack_twice", "reply_duplicated_in_one_read", "late_rstack_after_timeout", "loss_while_reset_pending", "loss_while_startup_pending",
+          "rstack_before_request", "rstack_twice", "reply_duplicated_in_one_read", "reset_with_queued_send", "late_rstack_after_timeout", "loss_while_reset_pending", "loss_while_startup_pending",
           "eof_while_pending", "close_while_pending", "retry_after_timeout", "joined_existing_reset", "counters_nonzero_before", "sched.batch", "sched.reorder"]
 
 SW = R.RESET_SOFTWARE
@@ -73,6 +73,9 @@ def plan(tier):
     for seqs in (("never", "now"), ("never", "never"), ("after", "now"), ("now", "now")):
         sweeps.append(("chain", {"arrivals": list(seqs), "sched": False}))
     sweeps.append(("join", {"sched": False}))
+    for tx in range(8):
+        # (ACK and RSTACK in ONE read: with two reads the queued send may legitimately go out, still in the old numbering, between them)
+        sweeps.append(("queued", {"tx": tx, "rx": (tx * 3) % 8, "together": True, "sched": False}))
     return {
         "sweeps": sweeps,
         "exhaustive": "waiter {reset, startup} x reply {RSTACK, ERROR} x all 256 codes x arrival {before, at once, mid-window, exactly at the deadline, after, twice, twice in one read, never} x prior (tx, rx) counters, and connection loss/EOF at each step, benign schedule",
@@ -104,6 +107,7 @@ class Cell:
 
         self.gw.reset_received = reset_received
         self.auto_rstack = True
+        self.auto_ack = True
         self.rst_writes = []
         self.peer_frm = 0
         rig.on_frame = self._on_frame
@@ -116,7 +120,7 @@ class Cell:
             if self.auto_rstack:
                 self.peer_frm = 0
                 self.rig.peer_send(R.f_rstack(SW), delay=0.001)
-        elif fr[0] == "data":
+        elif fr[0] == "data" and self.auto_ack:
             self.rig.peer_send(R.f_ack((fr[1] + 1) % 8), delay=0.001)
 
     async def prior(self, tx, rx):
@@ -223,6 +227,8 @@ def run(scenario, params, tape, detail=False):
         return agg
     if scenario == "cell":
         return run_cell(params, tape, detail)
+    if scenario == "queued":
+        return run_queued(params, tape, detail)
     return run_chain(scenario, params, tape, detail)
 
 
@@ -389,6 +395,55 @@ def run_cell(params, tape, detail=False):
     return _finish(cell, viol, probes, desc, nontrivial, detail,
                    {"cell": tag, "outcome": (o[0], repr(o[1]), round(o[2], 4)) if o else None, "failed_calls": app.failed[:4],
                     "t_req": res.get("t_req"), "replies": replies})
+
+
+def run_queued(params, tape, detail=False):
+    """A send is in flight and another is already queued behind it when reset() is issued; the ACK for the first and the RSTACK arrive in one
+    read. The queued send is the first frame of the new session: it must be numbered 0 (C11.zero)."""
+    tx = params["tx"]
+    cell = Cell(tape, params.get("sched", True))
+    loop, rig = cell.loop, cell.rig
+    viol, probes = [], {"reset_with_queued_send": 1}
+    res, st = {}, {}
+
+    async def main():
+        await cell.prior(tx, params.get("rx", 0))
+        cell.auto_ack = False
+        s1 = loop.create_task(cell.gw.send_data(b"q1"))
+        await asyncio.sleep(0.01)
+        s2 = loop.create_task(cell.gw.send_data(b"q2"))
+        await asyncio.sleep(0.01)
+        rt = loop.create_task(request(cell, "reset", res))
+        await asyncio.sleep(0.01)
+        st["t_rstack"] = loop.time() + 0.001
+        together = params.get("together", True)
+        if together:
+            rig.peer_send_bytes(R.wire(R.f_ack((tx + 1) % 8)) + R.wire(R.f_rstack(SW)), delay=0.001)
+        else:
+            rig.peer_send(R.f_ack((tx + 1) % 8), delay=0.001)
+            rig.peer_send(R.f_rstack(SW), delay=0.001)
+        cell.auto_ack = True
+        await asyncio.sleep(4.0)
+        st["s"] = [(t_.done() and not t_.cancelled() and t_.exception() is None) for t_ in (s1, s2)]
+        for t_ in (s1, s2, rt):
+            if not t_.done():
+                t_.cancel()
+
+    outcome, val = rig.run(main())
+    tag = f"reset with a queued send, prior tx={tx}, ACK and RSTACK {'in one read' if params.get('together', True) else 'in two reads'}"
+    if outcome != "done":
+        viol.append(("C11.timeout", "sim-" + outcome, f"{tag}: simulation ended with {outcome}: {val!r}"))
+    else:
+        o = res.get("outcome")
+        if o is None or o[0] != "ok":
+            viol.append(("C11.only", "not-completed", f"{tag}: reset() ended {o and o[0]} {o and o[1]!r} although RSTACK(software) was delivered"))
+        after = [fr for (t_, fr) in rig.mon.tx_frames if fr[0] == "data" and t_ >= st["t_rstack"] - 1e-9 and not fr[2]]
+        if after and (after[0][1] != 0 or after[0][3] != 0):
+            viol.append(("C11.zero", "queued-send-numbering", f"{tag}: the first new DATA frame after the handshake is {after[0][:4]} (expected frmNum 0, ackNum 0)"))
+        if not after:
+            probes["queued_send_not_written"] = 1
+    desc = ("queued", tx, params.get("together", True), st.get("s"))
+    return _finish(cell, viol, probes, desc, True, detail, {"cell": tag, "sends_completed": st.get("s")})
 
 
 def run_chain(scenario, params, tape, detail=False):
